@@ -286,6 +286,8 @@ func c08Key(kind int) tls.Certificate {
 		return mat.SignP384
 	case 4:
 		return mat.SignP521
+	case 5:
+		return mat.SignSameSerial
 	}
 	return mat.SignRSA
 }
@@ -428,6 +430,12 @@ func c08Specs(thorough bool) []c08Case {
 										w.SMIME = kk
 										cs = append(cs, c08Case{Spec: w, Renders: 2, Ks: []int{0, 0}, Mod: mod})
 									}
+									// a signer certificate that shares its serial number with the intermediate (other issuer)
+									for api := 0; api <= 3; api += 3 {
+										w := v
+										w.SMIME, w.Inter, w.SignAPI = 5, true, api
+										cs = append(cs, c08Case{Spec: w, Renders: 2, Ks: []int{0, 0}, Mod: mod})
+									}
 								}
 								if thorough || n%4 == 0 || mod == "none" {
 									// the other signing entry point, with certificate chains of 1..3 entries
@@ -462,13 +470,13 @@ func init() {
 	vf.Register(&vf.Check{
 		ID: "C08", Title: "S/MIME signatures verify for every message shape",
 		Run: func(r *vf.Run) {
-			r.SetRule("all 36 part/embed/attachment count combinations (0..3 × 0..2 × 0..2) × message encoding {QP, base64, 8bit} × file encoding {base64, 8bit, QP} with per-part encodings × modifier {none, part/file descriptions, no From, empty To list via ToIgnoreInvalid, generic header without values, two preformatted headers (one multi-line), long folded subject} × key {ECDSA P-256, RSA-2048} × {with, without intermediate certificate} × three consecutive renders × histories {signed from the start; 1–2 unsigned renders, then SignWithKeypair, then render; subject changed between signed renders; a WriteTo into a sink failing after 1/200/600/1500 bytes before each judged render} × middleware {none; one that sets a header / appends a footer to the first body part / adds an attachment on every rendering} × map-iteration start 0..7 on the renders where map order matters, incl. a different order for the signed pre-rendering and the emission inside one WriteTo (switch after n = 1..14 iterations); every output is split by the harness' MIME reader and the PKCS#7 structure is verified by the harness' own CMS verifier (digest of the first part as emitted, signature over the DER SET of signed attributes, embedded certificates, protocol/micalg); distinct by (program, map starts)")
+			r.SetRule("all 36 part/embed/attachment count combinations (0..3 × 0..2 × 0..2) × message encoding {QP, base64, 8bit} × file encoding {base64, 8bit, QP} with per-part encodings × modifier {none, part/file descriptions, no From, empty To list via ToIgnoreInvalid, generic header without values, two preformatted headers (one multi-line), long folded subject} × key {ECDSA P-256, RSA-2048, P-384, P-521, a P-256 signer whose serial number equals the intermediate's} × {with, without intermediate certificate} × three consecutive renders × histories {signed from the start; 1–2 unsigned renders, then SignWithKeypair, then render; subject changed between signed renders; a WriteTo into a sink failing after 1/200/600/1500 bytes before each judged render} × middleware {none; one that sets a header / appends a footer to the first body part / adds an attachment on every rendering} × map-iteration start 0..7 on the renders where map order matters, incl. a different order for the signed pre-rendering and the emission inside one WriteTo (switch after n = 1..14 iterations); every output is split by the harness' MIME reader and the PKCS#7 structure is verified by the harness' own CMS verifier (digest of the first part as emitted, signature over the DER SET of signed attributes, embedded certificates, protocol/micalg); distinct by (program, map starts)")
 			r.Assume("content is in canonical CRLF form", "cmsverify is validated at start-up against OpenSSL-produced CMS signatures (RSA and ECDSA)")
 			if !mapseam.Enabled {
 				r.Incomplete("runtime map-iteration seam not available: map order is sampled")
 			}
 			if r.Fork(r.Workers) {
-				r.Reached("reached/verified/hist=0/signapi=0", "reached/verified/hist=1/signapi=0", "reached/verified/hist=2/signapi=0", "reached/verified/hist=3/signapi=0", "reached/verified/hist=4/signapi=0", "reached/verified/hist=0/signapi=1", "reached/verified/hist=0/signapi=2", "reached/verified/hist=0/signapi=3", "reached/verified/hist=0/signapi=4", "reached/verified/signed-after-unsigned-renders", "reached/verified/after-failed-render", "reached/verified/map-order-switch", "reached/verified/key-kind=1", "reached/verified/key-kind=2", "reached/verified/key-kind=3", "reached/verified/key-kind=4", "reached/verified/caller-fixed-boundary", "reached/verified/middleware=1", "reached/verified/middleware=2", "reached/verified/middleware=3")
+				r.Reached("reached/verified/hist=0/signapi=0", "reached/verified/hist=1/signapi=0", "reached/verified/hist=2/signapi=0", "reached/verified/hist=3/signapi=0", "reached/verified/hist=4/signapi=0", "reached/verified/hist=0/signapi=1", "reached/verified/hist=0/signapi=2", "reached/verified/hist=0/signapi=3", "reached/verified/hist=0/signapi=4", "reached/verified/signed-after-unsigned-renders", "reached/verified/after-failed-render", "reached/verified/map-order-switch", "reached/verified/key-kind=1", "reached/verified/key-kind=2", "reached/verified/key-kind=3", "reached/verified/key-kind=4", "reached/verified/key-kind=5", "reached/verified/caller-fixed-boundary", "reached/verified/middleware=1", "reached/verified/middleware=2", "reached/verified/middleware=3")
 				return
 			}
 			cases := c08Specs(r.Thorough)
